@@ -447,10 +447,45 @@ def _oracle(repo, wiring, demands, with_demand_for_all=False):
     return out
 
 
+def shipped_output_wirings(repo):
+    """wirings over the output NAMES the shipped tables use: every output item whose label list (in some shipped table)
+    offers a user device is wired to one - the heater output that can carry pump 1 (`OutHtr`: 'P1H' in 26 configs), the
+    lettered and IO outputs included.  Which output carries a label must not matter to the inventory."""
+    from .packs import tables
+    T = tables(repo)
+    user = ["P1", "P2", "P3", "P4", "P5", "BL", "Waterfall", "LI"]
+    offers = {}
+    for _stem, m in sorted(T.modules.items()):
+        for k in m.props.get("output_keys", []) or []:
+            it = next((i for i in m.items if i.key == k), None)
+            if it is None:
+                continue
+            try:
+                labs = T.geometry(it).get("items") or []
+            except Exception:  # noqa: BLE001 - malformed items are C18's findings
+                continue
+            for l_ in labs:
+                if any(l_.startswith(d) for d in user) and l_ not in offers.setdefault(k, []):
+                    offers[k].append(l_)
+    if len(offers) < 10:
+        raise AnalysisError(f"only {len(offers)} shipped output names offer a user device - the pack tables were not read as expected")
+    first = {k: v[0] for k, v in sorted(offers.items())}
+    last = {k: v[-1] for k, v in sorted(offers.items())}
+    out = {"shipped-output-names::first-offered": first, "shipped-output-names::last-offered": last}
+    # one output at a time carries the only device: whichever output it is, the device is in the inventory
+    for k, v in sorted(offers.items()):
+        if not (k.startswith("Out") and k[3:].isdigit()):
+            out[f"only::{k}={v[0]}"] = {"Out1": "NA", k: v[0]}
+    return out
+
+
 def inventory(ctx, repo, rule, scans):
     n = 0
     results = {}
-    for wname, wiring in WIRINGS.items():
+    wirings = dict(WIRINGS)
+    wirings.update(shipped_output_wirings(repo))
+    ctx.count(f"{rule}:wirings over shipped output names", len(wirings) - len(WIRINGS))
+    for wname, wiring in wirings.items():
         for dname, demands in (("all-demands", TABLE_DEMANDS), ("no-UdP2", [d for d in TABLE_DEMANDS if d != "UdP2"])):
             want = _oracle(repo, wiring, demands)
             for cname, fname in scans:
